@@ -1216,6 +1216,26 @@ def rpx_rules(ctx, prefix):
     return obs
 
 
+def tokens_only_rule(ctx, prefix):
+    """output is produced from tokens: source text is never copied (raw appends replay text the compiler itself has written
+    into the low-priority stream)"""
+    ob = ctx.ob
+    sc = ctx.sc
+    obs = []
+    raws = []
+    for g in sc.fns:
+        if not g.body or g.base == "StyleSheetOutput":
+            continue
+        for x in sir.walk(g.body, into_closures=True):
+            if x.get("k") == "mcall" and x["m"] == "append_raw" and "low_priority_output" not in sir.expr_str(x["recv"]):
+                raws.append("%s appends raw text to `%s`" % (g.name, sir.expr_str(x["recv"])[:40]))
+            if x.get("k") == "mcall" and x["m"] in ("slice_from", "slice", "current_line") and "input" in sir.expr_str(x["recv"]):
+                raws.append("%s takes a slice of the source text (`%s`)" % (g.name, x["m"]))
+    obs.append(ob("%s.tokens-only" % prefix, not raws, "lib.rs", "; ".join(sorted(set(raws))[:3]) if raws else "no source text is copied into the output: everything is re-serialised from tokens",
+                  witness=None if not raws else "@import 'a' (min-width: 750rpx); keeps `750rpx` when no import sign is configured"))
+    return obs
+
+
 def at_prelude_terminators_rule(ctx, prefix):
     """an at-rule ends at its block or at its `;`: in the loop that copies the prelude, every arm one of these two tokens can
     reach - in order, up to the first arm without a guard - ends the loop"""
@@ -1241,6 +1261,31 @@ def at_prelude_terminators_rule(ctx, prefix):
             probs.append("no arm for %s" % tok)
     return [ob("%s.ctx/at-prelude/terminators" % prefix, not probs, ctx.where(d.fn), "; ".join(probs) if probs else "`{` and `;` end the at-rule on every path",
                witness=None if not probs else "@layer a, b; .x{} : the selector `.x` is swallowed by the prelude of @layer and stays unprefixed")]
+
+
+def state_counters_rule(ctx, prefix):
+    """a counter kept on the transformer (a depth, a budget) that a function raises is lowered again by that function: the
+    walkers are re-entered for every block of the sheet, a leak makes later blocks look deeper than they are"""
+    ob = ctx.ob
+    sc = ctx.sc
+    nums = set()
+    for _m, st in sc.structs.get("StyleSheetTransformer", []):
+        for fl in st.get("fields", []):
+            if re.fullmatch(r"(u|i)(8|16|32|64|128|size)", (fl.get("ty") or "").strip()):
+                nums.add(fl["name"])
+    if not nums:
+        return [ob("%s.state/counters" % prefix, True, "lib.rs", "the transformer keeps no counter between rules")]
+    leaks = []
+    for g in sc.fns:
+        if not g.body:
+            continue
+        for fld in sorted(nums):
+            ups = [x for x in sir.walk(g.body, into_closures=True) if x.get("k") == "binary" and x.get("op") == "+=" and sir.expr_str(x["l"]).endswith("." + fld)]
+            downs = [x for x in sir.walk(g.body, into_closures=True) if x.get("k") == "binary" and x.get("op") == "-=" and sir.expr_str(x["l"]).endswith("." + fld)]
+            if ups and not downs:
+                leaks.append("%s raises `%s` %d time(s) and lowers it %d time(s)" % (g.name, fld, len(ups), len(downs)))
+    return [ob("%s.state/counters" % prefix, not leaks, "lib.rs", "; ".join(leaks[:2]) if leaks else "counters %s are lowered wherever they are raised" % sorted(nums),
+               witness=None if not leaks else "a sheet with more than 64 bracketed selectors: later declaration blocks are copied with their rpx unconverted")]
 
 
 def options_untouched_rule(ctx, prefix):
@@ -1928,19 +1973,7 @@ def import_extra_rules(ctx, prefix, f, where):
                 bad.append("the arm `%s` does not start the media list" % sir.pat_str(a.node["pat"])[:40])
         obs.append(ob("%s.wrap/media-start" % prefix, (not bad) if n6 else None, where, "; ".join(bad) if bad else "an identifier or `(` ends the scan and starts the media list, untouched" if n6 else "no arm for identifiers in the scanning loop: not decided",
                       witness=None if not bad else "@import 'a' all and (min-width:1px); is wrapped in `@media and (min-width:1px){..}`"))
-    # (7) output is produced from tokens: source text is never copied (raw appends replay text the compiler itself has written
-    #     into the low-priority stream)
-    raws = []
-    for g in sc.fns:
-        if not g.body or g.base == "StyleSheetOutput":
-            continue
-        for x in sir.walk(g.body, into_closures=True):
-            if x.get("k") == "mcall" and x["m"] == "append_raw" and "low_priority_output" not in sir.expr_str(x["recv"]):
-                raws.append("%s appends raw text to `%s`" % (g.name, sir.expr_str(x["recv"])[:40]))
-            if x.get("k") == "mcall" and x["m"] in ("slice_from", "slice", "current_line") and "input" in sir.expr_str(x["recv"]):
-                raws.append("%s takes a slice of the source text (`%s`)" % (g.name, x["m"]))
-    obs.append(ob("%s.tokens-only" % prefix, not raws, "lib.rs", "; ".join(sorted(set(raws))[:3]) if raws else "no source text is copied into the output: everything is re-serialised from tokens",
-                  witness=None if not raws else "@import 'a' (min-width: 750rpx); keeps `750rpx` when no import sign is configured"))
+    obs += tokens_only_rule(ctx, prefix)
     return obs
 
 
